@@ -340,7 +340,7 @@ func c16Invariants(r *vfw.Run, cands []ceremony.VerifCand, flips [][]byte, short
 
 type cerEpochFacts struct {
 	evidence        map[common.Address][]byte // first evidence transaction of each sender in the epoch's blocks
-	candidates      []common.Address          // lottery order (index = bit of the evidence bitmaps)
+	candidates      [][]common.Address        // per shard (index 0 = shard 1), lottery order (index = bit of the evidence bitmaps)
 	shortTx, longTx map[common.Address]bool
 	before          map[common.Address]state.Identity // at the lottery block
 	lotteryHeight   uint64
@@ -372,7 +372,7 @@ func runCeremony(r *vfw.Run, forC16 bool) {
 		}))
 		defer log.Root().SetHandler(log.DiscardHandler())
 	}
-	o := scen.Opts{MinIdent: 3, MaxIdent: 10, CeremonySoon: true, MostlyValidated: true, Zones: true, Skew: r.Choose("cer.skew", 2) == 0}
+	o := scen.Opts{MinIdent: 3, MaxIdent: 10, CeremonySoon: true, MostlyValidated: true, Zones: true, Skew: r.Choose("cer.skew", 2) == 0, SmallShards: true}
 	s := scen.New(r, o)
 	s.RealCeremony = true
 	defer s.Close()
@@ -408,6 +408,9 @@ func runCeremony(r *vfw.Run, forC16 bool) {
 	wantEpochs := 1
 	if r.Choose("cer.twoepochs", 4) == 0 {
 		wantEpochs = 2
+	}
+	if wantEpochs == 1 && s.SmallShardsOn && r.ChooseOpt("cer.twoepochs.shards", 2) == 1 {
+		wantEpochs = 2 // shards appear at the first epoch change: the second ceremony is the one that runs in several shards
 	}
 	encs := map[uint64][]byte{}
 	certs := map[uint64]*types.BlockCert{}
@@ -719,9 +722,13 @@ func c17Rules(r *vfw.Run, s *scen.Scn, n *simnode.Node, f *cerEpochFacts) {
 	// approval by the evidence maps, recomputed from the evidence transactions in the epoch's blocks: a candidate counts
 	// as present only if a strict majority of the maps (of senders that are candidates themselves) contains it
 	notApproved := map[common.Address]bool{}
-	if len(f.candidates) > 0 {
+	for shard, shardCands := range f.candidates {
+		if len(shardCands) == 0 {
+			continue
+		}
+		// bitmaps are positional within the sender's shard: only the maps of candidates of this shard say anything
 		isCand := map[common.Address]bool{}
-		for _, c := range f.candidates {
+		for _, c := range shardCands {
 			isCand[c] = true
 		}
 		nmaps := 0
@@ -745,19 +752,22 @@ func c17Rules(r *vfw.Run, s *scen.Scn, n *simnode.Node, f *cerEpochFacts) {
 			if !isCand[snd] || crafted {
 				continue
 			}
-			bm := common.NewBitmap(uint32(len(f.candidates)))
+			bm := common.NewBitmap(uint32(len(shardCands)))
 			bm.Read(f.evidence[snd])
 			nmaps++
 			for _, v := range bm.ToArray() {
 				score[int(v)]++
 			}
 		}
-		for i, c := range f.candidates {
+		for i, c := range shardCands {
 			if !crafted && 2*score[i] <= nmaps {
 				notApproved[c] = true
 			}
 		}
 		r.Probe(fmt.Sprintf("evidence_maps_on_chain_%d", nmaps))
+		if len(f.candidates) > 1 {
+			r.Probe(fmt.Sprintf("evidence_majority_judged_in_shard_%d_of_%d", shard+1, len(f.candidates)))
+		}
 	}
 	n.Do(func() {
 		for _, a := range s.AllActors() {
@@ -807,7 +817,7 @@ func c16InScenario(r *vfw.Run, s *scen.Scn, cer *scen.Cer, live []*simnode.Node,
 			r.Probe("lottery_not_finished_on_a_replica_at_short_session")
 			continue
 		}
-		txt := scen.LotteryText(n, 1)
+		txt := scen.LotteryTextAll(n)
 		if refNode == nil {
 			ref, refNode = txt, n
 		} else if txt != ref {
@@ -818,7 +828,17 @@ func c16InScenario(r *vfw.Run, s *scen.Scn, cer *scen.Cer, live []*simnode.Node,
 		return
 	}
 	r.Probe("lottery_compared_across_replicas")
-	refNode.Do(func() { facts.candidates = append([]common.Address{}, refNode.VC.VerifLottery(1).Candidates...) })
+	nsh := 1
+	refNode.Do(func() {
+		nsh = int(refNode.App.State.ShardsNum())
+		facts.candidates = nil
+		for sh := 1; sh <= nsh; sh++ {
+			facts.candidates = append(facts.candidates, append([]common.Address{}, refNode.VC.VerifLottery(common.ShardId(sh)).Candidates...))
+		}
+	})
+	if nsh > 1 {
+		r.Probe(fmt.Sprintf("ceremony_in_a_network_of_%d_shards", nsh))
+	}
 	if !deep {
 		return
 	}
@@ -827,34 +847,44 @@ func c16InScenario(r *vfw.Run, s *scen.Scn, cer *scen.Cer, live []*simnode.Node,
 		v := live[1+r.Choose("c16.restartwho", len(live)-1)]
 		if cer.RestartNode(v) {
 			cer.Settle()
-			if txt := scen.LotteryText(v, 1); txt != ref {
+			if txt := scen.LotteryTextAll(v); txt != ref {
 				r.Violate("C16:lottery-differs-after-restart", "node %d after restart vs node %d: %s", v.ID, refNode.ID, oracle.FirstTextDiff(ref, txt))
 			}
 			r.Fault("restart_after_lottery")
 		}
 	}
-	// invariants on the node's own view
-	var view *ceremony.VerifLotteryView
-	refNode.Do(func() { view = refNode.VC.VerifLottery(1) })
-	var cands []ceremony.VerifCand
-	idxOf := map[common.Address]int{}
-	for i, a := range view.Candidates {
-		cands = append(cands, ceremony.VerifCand{Addr: a, PubKey: view.PubKeys[i], IsAuthor: view.IsAuthor[i]})
-		idxOf[a] = i
+	type shardView struct {
+		view  *ceremony.VerifLotteryView
+		cands []ceremony.VerifCand
+		idxOf map[common.Address]int
+		what  string
 	}
-	authorIdx := map[string]int{}
-	nauthors := 0
-	for _, isA := range view.IsAuthor {
-		if isA {
-			nauthors++
+	var views []shardView
+	for sh := 1; sh <= nsh; sh++ {
+		// invariants on the node's own view
+		var view *ceremony.VerifLotteryView
+		refNode.Do(func() { view = refNode.VC.VerifLottery(common.ShardId(sh)) })
+		var cands []ceremony.VerifCand
+		idxOf := map[common.Address]int{}
+		for i, a := range view.Candidates {
+			cands = append(cands, ceremony.VerifCand{Addr: a, PubKey: view.PubKeys[i], IsAuthor: view.IsAuthor[i]})
+			idxOf[a] = i
 		}
+		authorIdx := map[string]int{}
+		nauthors := 0
+		for _, isA := range view.IsAuthor {
+			if isA {
+				nauthors++
+			}
+		}
+		for f, a := range view.FlipAuthor {
+			authorIdx[f] = idxOf[a]
+		}
+		what := fmt.Sprintf("ceremony lottery at node %d, shard %d of %d (candidates=%d authors=%d flips=%d)", refNode.ID, sh, nsh, len(cands), nauthors, len(view.Flips))
+		c16Invariants(r, cands, view.Flips, view.Short, view.Long, view.CandidatesPerAuthor, authorIdx, what)
+		r.Case(fmt.Sprintf("b-lottery/%d/%d/%d/%d/%s", sh, len(cands), nauthors, len(view.Flips), r.W.Fingerprint()), nauthors >= 2 && len(cands) >= 3)
+		views = append(views, shardView{view, cands, idxOf, what})
 	}
-	for f, a := range view.FlipAuthor {
-		authorIdx[f] = idxOf[a]
-	}
-	what := fmt.Sprintf("ceremony lottery at node %d (candidates=%d authors=%d flips=%d)", refNode.ID, len(cands), nauthors, len(view.Flips))
-	c16Invariants(r, cands, view.Flips, view.Short, view.Long, view.CandidatesPerAuthor, authorIdx, what)
-	r.Case(fmt.Sprintf("b-lottery/%d/%d/%d/%s", len(cands), nauthors, len(view.Flips), r.W.Fingerprint()), nauthors >= 2 && len(cands) >= 3)
 	// key delivery: let faults stop, peers re-synchronise, delayed broadcasts fire
 	for i := 0; i < 3; i++ {
 		s.W.Advance(45 * 1e9)
@@ -867,64 +897,67 @@ func c16InScenario(r *vfw.Run, s *scen.Scn, cer *scen.Cer, live []*simnode.Node,
 	for _, n := range live {
 		nodeOf[n.Addr] = n
 	}
-	for ci, c := range cands {
-		cn := nodeOf[c.Addr]
-		if cn == nil {
-			continue
-		}
-		for _, per := range [][][]int{view.Short, view.Long} {
-			if ci >= len(per) {
+	for _, sv := range views {
+		view, cands, idxOf, what := sv.view, sv.cands, sv.idxOf, sv.what
+		for ci, c := range cands {
+			cn := nodeOf[c.Addr]
+			if cn == nil {
 				continue
 			}
-			for _, fi := range per[ci] {
-				if len(view.Flips) == 0 {
+			for _, per := range [][][]int{view.Short, view.Long} {
+				if ci >= len(per) {
 					continue
 				}
-				f := view.Flips[fi%len(view.Flips)]
-				author := view.FlipAuthor[string(f)]
-				an := nodeOf[author]
-				if an == nil {
-					continue // nobody operates the author: no keys are ever published
+				for _, fi := range per[ci] {
+					if len(view.Flips) == 0 {
+						continue
+					}
+					f := view.Flips[fi%len(view.Flips)]
+					author := view.FlipAuthor[string(f)]
+					an := nodeOf[author]
+					if an == nil {
+						continue // nobody operates the author: no keys are ever published
+					}
+					ai := idxOf[author]
+					isRec := false
+					for _, x := range view.CandidatesPerAuthor[ai] {
+						isRec = isRec || x == ci
+					}
+					var pub, encPriv []byte
+					var err error
+					cn.Do(func() { pub, encPriv, err = cn.VC.GetFlipKeys(c.Addr, f) })
+					if !isRec {
+						continue // placeholder
+					}
+					if len(c.PubKey) == 0 {
+						// identities allocated in the genesis block have no public key in the state: no author can encrypt
+						// for them (identities created by invitation + activation do)
+						r.Probe("candidate_without_public_key_in_state")
+						continue
+					}
+					// did the author's node publish at all? (it does so only while it interacts with the network)
+					published := false
+					an.Do(func() {
+						_, _, _, published = an.Keys.Get(common.Hash128{})
+						published = an.Keys.GetPublicFlipKey(author) != nil
+					})
+					if !published {
+						r.Probe("author_node_did_not_publish_keys")
+						continue
+					}
+					if err != nil {
+						r.Violate("C16:assigned-candidate-cannot-get-flip-key", "%s: candidate %x (node %d) flip %x of author %x (node %d) after peers re-synchronised: %v", what, c.Addr[:4], cn.ID, f[len(f)-4:], author[:4], an.ID, err)
+					}
+					var dec []byte
+					cn.Do(func() { dec, err = cn.Sec.DecryptMessage(encPriv) })
+					var want []byte
+					an.Do(func() { want = crypto.FromECDSA(an.Flipper.GetFlipPrivateEncryptionKey().ExportECDSA()) })
+					if err != nil || !bytes.Equal(dec, want) {
+						r.Violate("C16:assigned-candidate-cannot-decrypt-flip-key", "%s: candidate %x flip %x of author %x: err=%v", what, c.Addr[:4], f[len(f)-4:], author[:4], err)
+					}
+					_ = pub
+					r.Probe("assigned_flip_key_decrypted_by_candidate_node")
 				}
-				ai := idxOf[author]
-				isRec := false
-				for _, x := range view.CandidatesPerAuthor[ai] {
-					isRec = isRec || x == ci
-				}
-				var pub, encPriv []byte
-				var err error
-				cn.Do(func() { pub, encPriv, err = cn.VC.GetFlipKeys(c.Addr, f) })
-				if !isRec {
-					continue // placeholder
-				}
-				if len(c.PubKey) == 0 {
-					// identities allocated in the genesis block have no public key in the state: no author can encrypt
-					// for them (identities created by invitation + activation do)
-					r.Probe("candidate_without_public_key_in_state")
-					continue
-				}
-				// did the author's node publish at all? (it does so only while it interacts with the network)
-				published := false
-				an.Do(func() {
-					_, _, _, published = an.Keys.Get(common.Hash128{})
-					published = an.Keys.GetPublicFlipKey(author) != nil
-				})
-				if !published {
-					r.Probe("author_node_did_not_publish_keys")
-					continue
-				}
-				if err != nil {
-					r.Violate("C16:assigned-candidate-cannot-get-flip-key", "%s: candidate %x (node %d) flip %x of author %x (node %d) after peers re-synchronised: %v", what, c.Addr[:4], cn.ID, f[len(f)-4:], author[:4], an.ID, err)
-				}
-				var dec []byte
-				cn.Do(func() { dec, err = cn.Sec.DecryptMessage(encPriv) })
-				var want []byte
-				an.Do(func() { want = crypto.FromECDSA(an.Flipper.GetFlipPrivateEncryptionKey().ExportECDSA()) })
-				if err != nil || !bytes.Equal(dec, want) {
-					r.Violate("C16:assigned-candidate-cannot-decrypt-flip-key", "%s: candidate %x flip %x of author %x: err=%v", what, c.Addr[:4], f[len(f)-4:], author[:4], err)
-				}
-				_ = pub
-				r.Probe("assigned_flip_key_decrypted_by_candidate_node")
 			}
 		}
 	}
